@@ -173,6 +173,15 @@ def plain_statements():
                 out.append((f'plain-{tname}|0||{"distinct" if distinct else ""}|{"limit" if limit is not None else ""}#{limit}',
                             select(targets, from_='t', distinct=distinct, limit=limit)))
         out.append((f'plain-{tname}-where|0||distinct|limit#1', select(targets, from_='t', where=A.IsNotNull(col('v')), distinct=True, limit=1)))
+    # an output alias that re-uses the name of a table column for ANOTHER expression: ORDER BY <name> means the output column
+    nv, lk = (A.Neg(col('v')), 'v'), (F('length', col('k')), 'k')
+    for d in (ASC, DESC):
+        dn = 'D' if d == DESC else 'A'
+        for limit in (None, 1):
+            lt = 'limit' if limit else ''
+            out.append((f'alias-shadows-column-v|1|{dn}||{lt}', select([(col('id'), 'id'), nv], from_='t', order_by=[A.OrderBy(col('v'), d)], limit=limit)))
+            out.append((f'alias-shadows-column-k|1|{dn}||{lt}', select([(col('id'), 'id'), lk], from_='t', order_by=[A.OrderBy(col('k'), d)], limit=limit)))
+            out.append((f'alias-shadows-column-kv|2|{dn}{dn}||{lt}', select([(col('id'), 'id'), lk, nv], from_='t', order_by=[A.OrderBy(col('k'), d), A.OrderBy(col('v'), d)], limit=limit)))
     return out
 
 
